@@ -86,6 +86,16 @@ func runC12(c *Ctx) {
 			}
 		}
 	}
+	// walking bits: for every width, every single bit k (and bit k with small low bits, with
+	// one other bit, and all bits below k): an overflow check must look at every high bit
+	for size := int64(1); size <= 8; size++ {
+		for k := uint(0); k <= 62; k++ {
+			one := int64(1) << k
+			for _, v := range []int64{one, one | 0xABCD, one | int64(r.U64()&0xFFFFFF), one - 1, one | (one >> 9), one | (int64(1) << (k / 2))} {
+				c12IntPair(c, v, size)
+			}
+		}
+	}
 	for _, size := range []int64{math.MinInt64, math.MaxInt64, 1 << 32, 256 + 2, -8} {
 		c12IntPair(c, 5, size)
 	}
